@@ -65,6 +65,12 @@ inline psptr mkps_shift(unsigned n, float pqsize, float sx, float sy, const std:
     return mkps(qc - h, qc + h, pc - h, pc + h, filling, data, zoom);
 }
 
+// grid coordinate i of axis ax, computed here from the axis' end points (not through PhaseSpace::q()/p() or Ruler::at(), which are code under test)
+inline double coord(const PhaseSpace& ps, int ax, unsigned i) {
+    const double lo = ps.getAxis(ax)->min(), hi = ps.getAxis(ax)->max(); const unsigned n = ax ? PhaseSpace::ny : PhaseSpace::nx;
+    return lo + (hi - lo) * (double)i / (double)(n - 1);
+}
+
 inline double sum(const float* d, size_t n) { double s = 0; for (size_t i = 0; i < n; i++) s += d[i]; return s; }
 inline bool all_finite(const float* d, size_t n) { for (size_t i = 0; i < n; i++) if (!std::isfinite(d[i])) return false; return true; }
 
